@@ -27,7 +27,6 @@ KF_OF_DEV = {
     "te_ws_element": "kf_c01_te_ws_element",
     "target_dslash": "kf_c01_target_nonascii",
 }
-KF_EXPECT = "kf_c01_expect_continue_reset"
 NDEV = len(DEV_NAMES)
 STRICT = "0" * NDEV
 
@@ -190,11 +189,6 @@ def classify(runner, mh, mb, s, impl, strict):
         if parse_ref(a) == impl:
             # every flag of a minimal explaining set is necessary, hence a finding of its own
             return [KF_OF_DEV[n] for n in c], "explained by deviation(s) " + "+".join(c)
-    # F5/F6 (owned by C19 / C06): the first message expects 100-continue and the
-    # channel resets its completion flag
-    e = runner.query(["expects %d %d 1 1 %s %s" % (mh, mb, mask_of(["reqline_lf"]), hexb(s))])[0]
-    if e == "1":
-        return [KF_EXPECT], "first message has Expect: 100-continue (F5/F6)"
     return None, "unexplained"
 
 
